@@ -37,7 +37,92 @@ def plan(tier, seed):
     units += [{"lo": lo, "hi": min(n + m, lo + per), "nops": nops, "profile": "sat"} for lo in range(n, n + m, per)]
     units += [{"kind": "rejected", "shard": i, "of": 8} for i in range(8)]
     units += [{"kind": "accepted", "shard": i, "of": 8} for i in range(8)]
+    units += [{"kind": "adders"}]
     return units
+
+
+def run_adders(unit, tier, seed, acc):
+    """Every shape-adding entry point with every geometry argument given as a float (what `prs.slide_width / 2` or
+    `Inches(3) * 0.5` produce: whole or not), swept rather than drawn: the call either refuses (TypeError / ValueError) or leaves
+    its slide - and the chart / OLE parts it made - valid."""
+    import io
+
+    import pptx
+    from lxml import etree
+    from pptx.chart.data import CategoryChartData
+    from pptx.enum.chart import XL_CHART_TYPE
+    from pptx.enum.shapes import MSO_CONNECTOR, MSO_SHAPE, PROG_ID
+    from pptx.util import Emu
+    from vlib import env, gen, xsdkit
+
+    rnd = env.rng("C03", "adders", seed)
+    png = gen.png_bytes(rnd)
+
+    def cd():
+        d = CategoryChartData()
+        d.categories = ["a", "b"]
+        d.add_series("s", (1, 2))
+        return d
+
+    adders = {
+        "add_shape": lambda sh, g: sh.add_shape(MSO_SHAPE.OVAL, *g),
+        "add_textbox": lambda sh, g: sh.add_textbox(*g),
+        "add_picture": lambda sh, g: sh.add_picture(io.BytesIO(png), *g),
+        "add_picture:position-only": lambda sh, g: sh.add_picture(io.BytesIO(png), g[0], g[1]),
+        "add_table": lambda sh, g: sh.add_table(2, 2, *g),
+        "add_chart": lambda sh, g: sh.add_chart(XL_CHART_TYPE.PIE, *g, cd()),
+        "add_connector": lambda sh, g: sh.add_connector(MSO_CONNECTOR.STRAIGHT, *g),
+        "add_ole_object": lambda sh, g: sh.add_ole_object(io.BytesIO(b"x"), PROG_ID.XLSX, g[0], g[1], g[2], g[3]),
+        "add_ole_object:icon-size": lambda sh, g: sh.add_ole_object(io.BytesIO(b"x"), PROG_ID.XLSX, g[0], g[1], icon_width=g[2], icon_height=g[3]),
+        "add_movie": lambda sh, g: sh.add_movie(io.BytesIO(b"not-a-movie"), *g, mime_type="video/mp4"),
+    }
+    forms = {"whole-float": lambda v: float(v), "half": lambda v: Emu(v) / 2 + 0.5, "third": lambda v: v / 3.0}
+    for name, add in sorted(adders.items()):
+        for fname, f in sorted(forms.items()):
+            for in_group in (False, True):
+                prs = pptx.Presentation()
+                slide = prs.slides.add_slide(prs.slide_layouts[6])
+                shapes = slide.shapes.add_group_shape().shapes if in_group else slide.shapes
+                if in_group and not hasattr(shapes, name.split(":")[0]):
+                    continue
+                base = (914400 + rnd.randrange(1000) * 3, 457200 + rnd.randrange(1000) * 3, 1828800 + rnd.randrange(1000) * 6, 914400 + rnd.randrange(1000) * 6)
+                g = tuple(f(v) for v in base)
+                before, _ = xsdkit.validate_part(etree.tostring(slide._element))
+                acc.case(desc=("adder", name, fname, in_group), nontrivial=True, cls="adder-float-geometry")
+                acc.hit("adder:" + name)
+                wit = {"adder": name, "form": fname, "in_group": in_group, "seed": seed}
+                try:
+                    add(shapes, g)
+                    acc.count("adders_called_with_float_geometry:accepted")
+                except (TypeError, ValueError):
+                    acc.count("adders_called_with_float_geometry:refused")
+                except Exception as e:  # noqa
+                    acc.violation("adder-raises:%s:%s" % (name, type(e).__name__), "%s with %s geometry %r raised %r" % (name, fname, g, e), wit)
+                    continue
+                buf = io.BytesIO()
+                try:
+                    prs.save(buf)
+                except Exception as e:  # noqa
+                    acc.violation("adder-then-save-raises:%s:%s" % (name, type(e).__name__), "%s with %s geometry, then save: %r" % (name, fname, e), wit)
+                    continue
+                import zipfile
+
+                zf = zipfile.ZipFile(io.BytesIO(buf.getvalue()))
+                for member in zf.namelist():
+                    if not (member.startswith("ppt/slides/slide") or member.startswith("ppt/charts/chart")) or not member.endswith(".xml"):
+                        continue
+                    after, _ = xsdkit.validate_part(zf.read(member))
+                    acc.count("parts_revalidated")
+                    if after is None:
+                        continue
+                    for m in xsdkit.new_errors(before, after) if (member.startswith("ppt/slides/") and before is not None) else after:
+                        acc.violation("invalid-xml:adder:%s:%s" % (name, histories_msg_class(m)), "%s with %s geometry %r: %s: %s" % (name, fname, g, member, str(m)[:200]), wit)
+
+
+def histories_msg_class(m):
+    import re
+
+    return re.sub(r"[0-9]+(\.[0-9]+)?", "N", str(m))[:80]
 
 
 def run_accepted(unit, tier, seed, acc):
@@ -152,12 +237,19 @@ def run_unit(unit, tier, seed, acc):
         return run_rejected(unit, tier, seed, acc)
     if unit.get("kind") == "accepted":
         return run_accepted(unit, tier, seed, acc)
+    if unit.get("kind") == "adders":
+        return run_adders(unit, tier, seed, acc)
     histories.run_histories(unit.get("profile", "xml"), {"C03"}, unit, tier, seed, acc, save_every=None)
 
 
 def replay(w, acc):
     from vlib import histories
 
+    if "adder" in w:
+        run_adders({}, "quick", w.get("seed", 0), acc)
+        acc.violations[:] = [v for v in acc.violations if v["witness"].get("adder") == w["adder"]]
+        print([(v["key"], v["what"][:300]) for v in acc.violations])
+        return
     if "row" in w:
         (run_accepted if w.get("accepted") else run_rejected)({"shard": 0, "of": 1}, "quick", 0, acc)
         acc.violations[:] = [v for v in acc.violations if v["witness"]["row"] == w["row"]]
